@@ -6,7 +6,7 @@
    token invariants on which the literal constructors rely (so that IntegerNode/RealNode/CharNode cannot
    hit an unchecked conversion); the arithmetic leaves cannot trap.  That the evaluator never reaches an
    FCrash is checked by the correspondence on the crash oracle (normal + sanitizer build), not yet proved. *)
-From PE2 Require Import Lexer Parser Eval Run Lemmas_Lexer Lemmas_Expr Lemmas_Fuel Lemmas_FuelRun Lemmas_Out Lemmas_LexTotal.
+From PE2 Require Import Lexer Parser Eval Run Lemmas_Lexer Lemmas_Expr Lemmas_Fuel Lemmas_FuelRun Lemmas_Out Lemmas_LexTotal Lemmas_ParserFuel.
 Local Open Scope Z_scope.
 
 (* every CHAR token holds exactly one character; every INTEGER/REAL token is non-empty and starts with a digit *)
@@ -52,6 +52,11 @@ Theorem C01_evaluator_fuel_step : forall ped repl lim fuel bl c s,
   run_block ped repl lim fuel bl c s = run_block ped repl lim (S fuel) bl c s \/ exists s', run_block ped repl lim fuel bl c s = (Fail FFuel, s').
 Proof. exact run_block_fuel_step. Qed.
 Print Assumptions C01_evaluator_fuel_step.
+
+Theorem C01_parser_fuel_step : forall ped fuel bt s,
+  parse_block ped fuel bt s = parse_block ped (S fuel) bt s \/ parse_block ped fuel bt s = PFuel.
+Proof. exact parse_block_fuel_step. Qed.
+Print Assumptions C01_parser_fuel_step.
 
 (* whatever happens (diagnostic, signal, internal crash outcome, fuel stop), what was printed stays printed *)
 Theorem C01_output_is_append_only : forall ped repl lim fuel bl c s,
